@@ -1,5 +1,6 @@
 import OmplModel.Proofs.PlannerProtoRoots
 import OmplModel.Proofs.PlannerProtoControl
+import OmplModel.Proofs.PlannerProtoPrm
 /-!
 # C03 — interrupting, resuming or clearing a planner never corrupts its result
 
@@ -214,5 +215,75 @@ example : dirtyAfter Pn (M.init rc) false
 example : dirtyAfter Pn (M.init rc) false
     [.setProblemDefinition 1 [(7, true)], .solve 1 [⟨0, true, 8, false, 5⟩], .setProblemDefinition 2 [(3, true)]] = true := by
   decide
+
+/-! ## Third core: PRM's query bookkeeping (`Model/PlannerProtoPrm.lean`) -/
+
+open OmplModel.PlannerProto.Prm in
+/-- **`clearQuery()` forgets the query and keeps the roadmap**: `startM_` and `goalM_` are empty, the
+`PlannerInputStates` counters are restarted, the roadmap and the problem definition are untouched. -/
+theorem clearQuery_forgets_query_keeps_roadmap (p : Prm) :
+    (Prm.clearQuery p).startM = [] ∧ (Prm.clearQuery p).goalM = [] ∧ (Prm.clearQuery p).pis.added = 0 ∧
+      (Prm.clearQuery p).pis.sampledGoals = 0 ∧ (Prm.clearQuery p).vertices = p.vertices ∧
+      (Prm.clearQuery p).pdef = p.pdef := by
+  simp [Prm.clearQuery]
+
+open OmplModel.PlannerProto.Prm in
+/-- **`setProblemDefinition` re-reads the query — also for the pointer the planner already holds**: whatever the
+planner state and whatever the id of `pd` (in particular the id of the current problem definition, i.e. a new query
+written into the same object), the next `solve` keeps the roadmap, turns exactly the valid start states of `pd` into
+start milestones, all of them NEW vertices (none is a milestone of the previous query), and reports `INVALID_START`
+iff `pd` has no valid start state.  (A `setProblemDefinition` that skips `clearQuery()` when the pointer is unchanged
+does not satisfy this.) -/
+theorem setProblemDefinition_rereads_query (p : Prm) (pd : PrmPdef) (grow : Nat) :
+    let r := Prm.solve (Prm.setProblemDefinition p pd) grow
+    r.1.startM.length = countValid pd.starts ∧ (∀ i ∈ r.1.startM, p.vertices ≤ i) ∧
+      p.vertices ≤ r.1.vertices ∧ (r.2 = .invalidStart ↔ countValid pd.starts = 0) := by
+  intro r
+  obtain ⟨h1, h2, h3, h4, h5, h6⟩ := setPD_fields p pd
+  have C := consume_spec pd.starts p.vertices []
+  have hr : r = Prm.solve (Prm.setProblemDefinition p pd) grow := rfl
+  unfold Prm.solve at hr
+  simp only [h5, h3, h1, h2, h4, h6, List.drop_zero] at hr
+  by_cases he : (consume pd.starts p.vertices []).2.isEmpty = true
+  · simp only [he, if_true] at hr
+    have hl : (consume pd.starts p.vertices []).2.length = 0 := by
+      simpa [List.isEmpty_iff] using he
+    rw [hr]
+    refine ⟨by simpa using C.2.1, ?_, by simp [C.1], ?_⟩
+    · intro i hi
+      rcases C.2.2 i hi with h | h
+      · simp at h
+      · exact h
+    · have : countValid pd.starts = 0 := by have := C.2.1; simp at this; omega
+      simp [this]
+  · have hne : countValid pd.starts ≠ 0 := by
+      intro h0
+      apply he
+      have := C.2.1
+      simp only [h0, List.length_nil, Nat.add_zero] at this
+      simpa [List.isEmpty_iff] using List.length_eq_zero_iff.mp this
+    simp only [he, Bool.false_eq_true, if_false, List.isEmpty_nil, if_true] at hr
+    by_cases hg : pd.goalValid = true
+    · simp only [hg, if_true] at hr
+      rw [hr]
+      refine ⟨by simpa using C.2.1, ?_, by simp [C.1]; omega, by simp [hne]⟩
+      intro i hi
+      rcases C.2.2 i hi with h | h
+      · simp at h
+      · exact h
+    · simp only [hg, Bool.false_eq_true, if_false] at hr
+      rw [hr]
+      refine ⟨by simpa using C.2.1, ?_, by simp [C.1], by simp [hne]⟩
+      intro i hi
+      rcases C.2.2 i hi with h | h
+      · simp at h
+      · exact h
+
+open OmplModel.PlannerProto.Prm in
+/-- non-vacuity: a second query written into the SAME problem definition object (id 1) and announced by
+`setProblemDefinition`: the old start milestone 0 is gone from `startM_`, the new start is vertex 3, the roadmap
+(3 vertices + growth) was kept -/
+example : (Prm.run {} [.setProblemDefinition ⟨1, [true], true⟩, .solve 1, .mutate [true] true,
+    .setProblemDefinition ⟨1, [true], true⟩, .solve 0]).startM = [3] := by decide
 
 end OmplModel.Props.C03
